@@ -9,15 +9,15 @@
 //! Bounds (chosen so that each mode stays well under 60 s in release mode):
 //!   C01  alphabet {0,1,2}, |old|,|new| <= 6, 3 algorithms; embedded arrays (offsets 2 / 3), guarded
 //!        Index wrapper, extracted slices
-//!   C07  alphabet {0,1,2}, |old|,|new| <= 5, deadline already expired at entry
+//!   C07  alphabet {0,1,2}, |old|,|new| <= 6, deadline already expired at entry
 //!   C08  alphabet {0,1,2}, |old|,|new| <= 4, 6 hook stacks, 2 hook kinds, every failure index k
 //!   C02  alphabet {0,1,2}, |old|,|new| <= 5, deadline none/expired, slices + sub-ranges + TextDiff
 //!   C03  alphabet {0,1,2} len <= 6 and alphabet {0,1} len <= 8, Myers + LCS
 //!   C09  alphabet {0,1,2}, |old|,|new| <= 6, deadline none/expired
 //!   C10  alphabet {0,1}, |old|,|new| <= 3, ALL valid input scripts with all carried indices
 //!   C11  alphabet {0,1,2}, |old|,|new| <= 5, slices and embedded sub-ranges
-//!   C12  alternating exact op lists, <= 7 ops, equal lens {1,2,3,5,8}, 6 change shapes, n in 0..=3
-//!   C13  alphabet {0,1,2}, |old|,|new| <= 4 captured ops + synthetic ops + TextDiff (chars)
+//!   C12  alternating exact op lists, <= 8 ops, equal lens {1,2,3,5,8}, 6 change shapes, n in 0..=3
+//!   C13  alphabet {0,1,2}, |old|,|new| <= 5 captured ops + synthetic ops + TextDiff (chars)
 //!   C05  lines {a,b,c}, <= 4 lines, optional missing final newline, radius 0..=2
 //!   C04 / C17  texts over {a,b,' ','\n'} of length <= 4, lines/words/chars tokenizers
 use std::ops::{Index, Range};
@@ -511,7 +511,7 @@ fn c01(cases: &mut u64) -> Option<String> {
 /// C07: only "expired before the start" can be scheduled through the public API (the algorithms
 /// read the clock themselves; there is no injectable clock), so mid-run expiry is not covered here.
 fn c07(cases: &mut u64) -> Option<String> {
-    raw_modes("C07", 5, true, cases)
+    raw_modes("C07", 6, true, cases)
 }
 
 // ---------------------------------------------------------------------------------------------
@@ -1275,7 +1275,7 @@ fn c12_rec(ops: &mut Vec<DiffOp>, oi: usize, nj: usize, left: usize, cases: &mut
 }
 
 fn c12(cases: &mut u64) -> Option<String> {
-    c12_rec(&mut Vec::new(), 0, 0, 7, cases)
+    c12_rec(&mut Vec::new(), 0, 0, 8, cases)
 }
 
 // ---------------------------------------------------------------------------------------------
@@ -1364,15 +1364,13 @@ fn c13(cases: &mut u64) -> Option<String> {
     let (so, sn): (Vec<u32>, Vec<u32>) = ((10..15).collect(), (20..25).collect());
     for oi in 0..4 {
         for nj in 0..4 {
-            for ol in 0..=2 {
-                for nl in 0..=2 {
-                    let mut ops = vec![DiffOp::Replace { old_index: oi, old_len: ol, new_index: nj, new_len: nl }];
-                    if nl == 0 {
-                        ops.push(DiffOp::Delete { old_index: oi, old_len: ol, new_index: nj });
-                    }
-                    if ol == 0 {
-                        ops.push(DiffOp::Insert { old_index: oi, new_index: nj, new_len: nl });
-                    }
+            for ol in 1..=2 {
+                for nl in 1..=2 {
+                    let ops = [
+                        DiffOp::Replace { old_index: oi, old_len: ol, new_index: nj, new_len: nl },
+                        DiffOp::Delete { old_index: oi, old_len: ol, new_index: nj },
+                        DiffOp::Insert { old_index: oi, new_index: nj, new_len: nl },
+                    ];
                     for op in &ops {
                         *cases += 1;
                         if let Err(w) = c13_op(op, &so, &sn) {
@@ -1383,7 +1381,7 @@ fn c13(cases: &mut u64) -> Option<String> {
             }
         }
     }
-    let all = seqs(3, 4);
+    let all = seqs(3, 5);
     for o in &all {
         let ot = to_text(o);
         for n in &all {
@@ -1442,16 +1440,11 @@ fn c13(cases: &mut u64) -> Option<String> {
 // ---------------------------------------------------------------------------------------------
 // C05 unified diff: header numbers, strict application
 // ---------------------------------------------------------------------------------------------
+/// newline-terminated texts first (shortest first), then the same texts lacking the final newline
 fn line_texts() -> Vec<String> {
-    let mut out = vec![String::new()];
-    for s in seqs(3, 4) {
-        if s.is_empty() {
-            continue;
-        }
-        let t: String = s.iter().map(|&x| format!("{}\n", (b'a' + x as u8) as char)).collect();
-        out.push(t.clone());
-        out.push(t[..t.len() - 1].to_string()); // last line without newline
-    }
+    let full: Vec<String> = seqs(3, 4).iter().map(|s| s.iter().map(|&x| format!("{}\n", (b'a' + x as u8) as char)).collect()).collect();
+    let mut out = full.clone();
+    out.extend(full.iter().filter(|t| !t.is_empty()).map(|t| t[..t.len() - 1].to_string()));
     out
 }
 
@@ -1711,15 +1704,15 @@ fn main() {
     let t0 = Instant::now();
     let (res, bounds) = match &mode[..] {
         "C01" => (c01(&mut cases), "alphabet {0,1,2}, len 0..=6, 3 algorithms x (embedded sub-range, guarded Index, extracted slices)"),
-        "C07" => (c07(&mut cases), "alphabet {0,1,2}, len 0..=5, deadline expired at entry, raw algorithms + capture_diff_deadline"),
+        "C07" => (c07(&mut cases), "alphabet {0,1,2}, len 0..=6, deadline expired at entry, raw algorithms + capture_diff_deadline"),
         "C08" => (c08(&mut cases), "alphabet {0,1,2}, len 0..=4, 6 hook stacks x 2 hook kinds x every failing call index"),
         "C02" => (c02(&mut cases), "alphabet {0,1,2}, len 0..=5, deadline none/expired, slices + sub-ranges + TextDiff chars"),
         "C03" => (c03(&mut cases), "alphabet {0,1,2} len 0..=6 and alphabet {0,1} len 0..=8, Myers + LCS, raw + captured"),
         "C09" => (c09(&mut cases), "alphabet {0,1,2}, len 0..=6, deadline none/expired"),
         "C10" => (c10(&mut cases), "alphabet {0,1}, len 0..=3, all valid scripts x all carried indices x 3 adapter stacks"),
         "C11" => (c11(&mut cases), "alphabet {0,1,2}, len 0..=5, slices + embedded sub-ranges"),
-        "C12" => (c12(&mut cases), "alternating exact op lists up to 7 ops, equal lens {1,2,3,5,8}, 6 change shapes, n 0..=3"),
-        "C13" => (c13(&mut cases), "synthetic ops + captured ops for alphabet {0,1,2} len 0..=4 + TextDiff chars"),
+        "C12" => (c12(&mut cases), "alternating exact op lists up to 8 ops, equal lens {1,2,3,5,8}, 6 change shapes, n 0..=3"),
+        "C13" => (c13(&mut cases), "synthetic ops + captured ops for alphabet {0,1,2} len 0..=5 + TextDiff chars"),
         "C05" => (c05(&mut cases), "lines {a,b,c}, 0..=4 lines, optional missing final newline, radius 0..=2"),
         "C04" | "C17" => (c04(&mut cases), "texts over {a,b,space,newline} len 0..=4, lines/words/chars, iter_all_changes + remapper + utils helpers"),
         _ => {
